@@ -43,6 +43,7 @@ def _run_json(cmd, wall):
   env = dict(os.environ)
   env['PYTHONPATH'] = VERIF + os.pathsep + env.get('PYTHONPATH', '')
   env['PYTHONHASHSEED'] = '0'
+  env.setdefault('VP_TMP', os.path.join(VERIF, '.work', 'tmp-%d' % os.getpid()))
   try:
     p = subprocess.run(['timeout', '-k', '5', str(int(wall))] + cmd, cwd=VERIF, env=env,
                        stdout=subprocess.PIPE, stderr=subprocess.PIPE, text=True, errors='replace')
@@ -97,6 +98,7 @@ def check(pid, tier, seed=0, jobs=None, only=None, keep_work=False):
   work = os.path.join(VERIF, '.work', pid, tier)
   shutil.rmtree(work, ignore_errors=True)
   os.makedirs(work)
+  os.environ['VP_TMP'] = os.path.join(VERIF, '.work', 'tmp-%d' % os.getpid())
   known = _known(pid)
 
   tasks = []       # dict(kind, spec, module, variant, cmd, wall, role)
@@ -129,7 +131,7 @@ def check(pid, tier, seed=0, jobs=None, only=None, keep_work=False):
                           per_path=cfg.get('per_path_timeout')))
       for k in regions:   # one run per finding (not per shard): its region must still yield the counterexample
         kn = '%s__known_%s' % (spec.name, gen.safe(k['id']))
-        variants.append(dict(func=spec.name, name=kn, extra_pre=base_pre + [k['region']], twin=None))
+        variants.append(dict(func=spec.name, name=kn, extra_pre=base_pre + [k['region']] + list(k.get('hint_pre', [])), twin=None))
         tasks.append(dict(kind='X', spec=spec, module=mpath, name=kn, role='known', known=k,
                           timeout=min(timeout, float(k.get('timeout', timeout))), per_path=cfg.get('per_path_timeout')))
       # reachability twins: once per harness (first shard), tier preconditions included
@@ -340,6 +342,7 @@ def check(pid, tier, seed=0, jobs=None, only=None, keep_work=False):
     print('INCONCLUSIVE harness=%s (bounded bug-hunting only for this obligation)' % n)
   for line in ev['known_lines']:
     print(line)
+  shutil.rmtree(os.path.join(VERIF, '.work', 'tmp-%d' % os.getpid()), ignore_errors=True)
   if not keep_work:
     shutil.rmtree(work, ignore_errors=True)
   if ev['violations']:
